@@ -183,6 +183,9 @@ def r1_pairing(run, w):
                % (kind, table), ok, witness=wit, fi=fi, node=n.stmt)
   if exc_callers == 0:
     raise AnalysisError("no caller of %s found (the exception of R1 needs its callers)" % R1_EXCEPTION)
+  if len(emitters) < 3:
+    raise AnalysisError("only %d function(s) seen handing schema actions to the gateway: the "
+                        "gateway mechanism moved" % len(emitters))
   run.ob(R1, "useractions", "emitting functions: %s" % ", ".join(sorted(emitters)),
          "the seven schema action kinds are each emitted somewhere", len(emitters) >= 7,
          nontrivial=False)
@@ -228,7 +231,10 @@ def _col_to_dict_keys(w, env):
     raise AnalysisError("schema.col_to_dict: expected a single `return <dict variable>`")
   var = rets[0].value.id
   must, may, attr = set(), set(), {}
+  locals_ = {}          # plain locals standing for an attribute of the column
   def val_attr(v):
+    if isinstance(v, ast.Name) and v.id in locals_:
+      v = locals_[v.id]
     return v.attr if isinstance(v, ast.Attribute) and isinstance(v.value, ast.Name) and \
         v.value.id == colp else None
   def go(stmts, cond):   # cond: True (always) / None (maybe)
@@ -248,6 +254,12 @@ def _col_to_dict_keys(w, env):
           (must if cond else may).add(t.slice.value)
           attr[t.slice.value] = val_attr(s.value)
           continue
+      if isinstance(s, ast.Assign) and len(s.targets) == 1 and \
+          isinstance(s.targets[0], ast.Name) and s.targets[0].id != var and \
+          not calls_in(s.value):
+        # a local naming a sub-expression (e.g. reverse_col_id = col.reverseColId)
+        locals_[s.targets[0].id] = s.value
+        continue
       if isinstance(s, ast.If):
         tv = _truth(s.test, env)
         if tv is True:
@@ -596,7 +608,10 @@ def _r2_noop_filter(run, R2, w):
 def _r2_update_translation(run, R2, w, mprops):
   """_updateColumnRecords: colId -> RenameColumn, type/isFormula/formula -> ModifyColumn via
   select_keys(values, _modify_col_schema_props), reverseCol -> reverseColId on both branches."""
-  fn = H.inlined_fn(w, "useractions.UserActions._updateColumnRecords")
+  ufi = w.override_methods().get(("BulkUpdateRecord", TC))
+  if ufi is None:
+    raise AnalysisError("no @override_action('BulkUpdateRecord', %r) method" % TC)
+  fn = H.inlined_fn(w, ufi.qualname)
   cfg = fn.cfg
   names = w.action_types()
   mods = [(n, H.norm(w, fn, c)) for (n, c, nm) in fn.calls() if nm == "self.doModifyColumn"]
@@ -735,8 +750,10 @@ def r3_rebuild_and_assert(run, w):
   run.rule(R3, run.rules[R3]["desc"], floor=18)
   # apply_user_actions (private helpers of Engine it calls are read in place)
   fn = w.fn("engine.Engine.apply_user_actions")
-  special = {"_apply_one_user_action", "assert_schema_consistent", "_undo_to_checkpoint",
-             "_bring_all_up_to_date", "apply_doc_action", "rebuild_usercode"}
+  a_recalc, a_undo, a_apply = (H.engine_anchor(w, "recalc"), H.engine_anchor(w, "undo"),
+                               H.engine_anchor(w, "apply_one"))
+  special = {a_recalc.name, a_undo.name, "assert_schema_consistent", "apply_doc_action",
+             "rebuild_usercode"} | ({a_apply.name} if a_apply is not None else set())
   sel = lambda fi: fi.cls is not None and fi.cls.qualname == "engine.Engine" and \
       fi.name.startswith("_") and fi.name not in special
   NI = H.InlinedCFG(w, fn, exceptional=False, depth=2, select=sel)
@@ -773,7 +790,7 @@ def r3_rebuild_and_assert(run, w):
   def dispatches(f, c, nm):
     """the user action is applied: self._apply_one_user_action(...), or the dispatch it consists
     of, getattr(self.user_actions, <name>)(*user_action), written in place"""
-    if nm == "self._apply_one_user_action":
+    if a_apply is not None and nm == "self." + a_apply.name:
       return True
     g = H.deref(f, c.func)
     return isinstance(g, ast.Call) and dotted(g.func) == "getattr" and g.args and \
@@ -815,7 +832,7 @@ def r3_rebuild_and_assert(run, w):
          "the flag is cleared before the action runs and never between the action and its check",
          ok, fi=fn.fi)
   # after a rollback
-  undo = {n.id for (n, c, nm) in XI.calls() if nm == "self._undo_to_checkpoint"}
+  undo = {n.id for (n, c, nm) in XI.calls() if nm == "self." + a_undo.name}
   hbody = set()
   for n in xcfg.nodes:
     if n.kind == "handler" and any(u in xcfg.reach_after({n.id}) for u in undo):
@@ -823,7 +840,7 @@ def r3_rebuild_and_assert(run, w):
   undo &= hbody
   checks_h = asserts_in(XI, hbody)
   is_undo = lambda c, nm, f: isinstance(c.func, ast.Attribute) and \
-      c.func.attr == "_undo_to_checkpoint"
+      c.func.attr == a_undo.name
   if (not undo and H.hidden_in_callees(w, fn, is_undo, depth=4)) or \
       (undo and not checks_h and H.hidden_in_callees(w, fn, is_assert, depth=4)):
     raise AnalysisError("apply_user_actions: the rollback / the check after it is inside a "
